@@ -2,6 +2,7 @@
 //! effects, modulators and decoders that log what the mixer does to them.
 
 pub mod clocksched;
+pub mod ressched;
 pub mod decoder;
 pub mod effect;
 pub mod sound;
